@@ -262,18 +262,27 @@ def stepDstAny (dst : Ty) : Step :=
   | .any => .ok asIsCoercer
   | _ => .skip
 
-/-- `norm.origin` when it is a class and the hint is neither generic nor parametrised
-    (`is_generic(norm.source) or is_parametrized(norm.source)` is false):
-    the only types `SubclassCoercerProvider` looks at.  `None`, `NewType`, `Literal`
-    have non-class origins (`is_subclass_soft` answers False). -/
-def classOrigin : Ty → Option Nat
-  | .any => some anyCls
+/-- Source side of `SubclassCoercerProvider`: `norm_src.origin` when it is a class and the
+    hint is neither generic nor parametrised (`is_generic(norm.source) or
+    is_parametrized(norm.source)` is false).  `Tuple[()]` has no `get_args`, so it passes
+    these guards with origin `tuple`.  `None`, `NewType`, `Literal` have non-class origins
+    (`is_subclass_soft` answers False); a source `Any` is declined
+    (fixes/C14-subclass-guards.patch; on the unpatched tree `Any` is the class `typing.Any`). -/
+def classOriginSrc : Ty → Option Nat
+  | .cls c [] => some c
+  | .ftuple [] => some Conc.tuple.cls
+  | _ => none
+
+/-- Destination side: a destination `Tuple[()]` is declined (fixes/C14-subclass-guards.patch;
+    the unpatched tree treats it as the class `tuple`); no class of the table derives from
+    `typing.Any`, so a destination `Any` never satisfies `issubclass`. -/
+def classOriginDst : Ty → Option Nat
   | .cls c [] => some c
   | _ => none
 
 /-- `SubclassCoercerProvider` -/
 def stepSubclass (cfg : Cfg) (src dst : Ty) : Step :=
-  match classOrigin src, classOrigin dst with
+  match classOriginSrc src, classOriginDst dst with
   | some a, some b => if cfg.sub a b then .ok asIsCoercer else .skip
   | _, _ => .skip
 
